@@ -20,6 +20,7 @@ def one(sid, tier):
     prop = meta['breaks_property']
     if not os.path.exists(os.path.join(VERIF, 'checks')) :
         return sid, 'ERROR', 'no checks'
+    old_base = False
     wt = tempfile.mkdtemp(prefix='seedrun-')
     os.rmdir(wt)
     t0 = time.time()
@@ -31,9 +32,12 @@ def one(sid, tier):
             sh(f'git -C /repo worktree remove --force {wt}')
             sh(f'git -C /repo worktree add --detach {wt} {meta["base_commit"]}')
             rc, out = sh(f'git apply {d}/patch.diff', cwd=wt)
+            old_base = True
         if rc:
             return sid, 'ERROR', 'patch does not apply: ' + out[-200:]
         env = dict(os.environ, VERIF_REPO=wt, PYTHONHASHSEED='0', TZ='UTC')
+        if old_base:
+            env['VERIF_SKIP_CORPUS'] = '1'
         rc, out = sh(f'/venv/bin/python {VERIF}/run_check.py {prop} --tier {tier}', cwd=VERIF, env=env)
         v = [ln for ln in out.splitlines() if ln.startswith('VIOLATION')]
         first = ''
